@@ -151,6 +151,36 @@ CHECKS = {
              "program and program output are equal to the reference delivery.",
         note="trusted: the unsplit delivery as reference; // and # comments are line-anchored and are not joined onto long lines; a custom reader that passes CR through is compared with itself only",
         design="DESIGN.md section 4, C13"),
+    "C02": dict(
+        engine="E1 space",
+        technique="bounded exhaustive enumeration of the (construct x operand type x nullness) matrix comparing compile-time and run-time types, of all short programs for batch-vs-stepwise equivalence, and of all (initial, assigned) type pairs under constraints",
+        text="(a) For every expression of the vocabulary product (every builtin, operator, type method and @rank over literals, variables, typed nulls, untyped "
+             "null, function results, table elements and tuple items of every type; depth-2 operator pairs in thorough) the static type is read from "
+             "Expression::type() while the context is in parsing mode and compared with the type of the evaluated value (major, tuple structure, table "
+             "dimension) and with the text typeof() prints; opaque static types are skipped. (b) All sequences of <=3 (quick) / <=4 (thorough) statements "
+             "over 29/35 statements in which variables change type, are $-constrained, serve as loop iterators, are used by compile-time selected methods "
+             "and functions are redefined with another return type: one parse+run of the whole text versus parse+run statement by statement in one "
+             "context; if the whole text runs, every statement must run alone, with the same output, variable values and functions. (c) Every (initial "
+             "type, assigned type) pair over 18 typed values for $-variables, for iterators and forall iterators over four element types, by direct "
+             "assignment and through an expression of opaque type: typeof never changes while the constraint is active, the iterator accepts any type "
+             "afterwards and the iterated table stays uniform.",
+        note="trusted: Expression::type() under Context::parsing() is the compile-time type; typeof compared case-insensitively",
+        design="DESIGN.md section 4, C02"),
+    "C14": dict(
+        engine="E3 sched",
+        technique="stateless model checking of the implementation: depth-first exploration of all thread schedules up to a preemption bound under a cooperative scheduler that owns the instrumented points, plus a free-running ThreadSanitizer pass and exhaustive sequential call orders",
+        text="harness/sched.cpp compiles one program, clones the context N times and runs bloc_execute2 on N real threads; only one thread runs at a time and "
+             "control changes hands only at BLOC_VERIF_POINTs (statement entry, null node, random generator, error text buffer, C API last-error record, "
+             "reference counts) and before a failed thread reads bloc_errno / bloc_strerror. All choice sequences with at most 2 preemptions for 2 threads "
+             "(quick), plus 3 preemptions / 2 threads and 2 preemptions / 3 threads (thorough) are explored for 12 programs (recursion, table+forall, null "
+             "logic, handled / unhandled / nested errors, strings, literals, function locals, deep error unwinding, random, tuples), each execution in a "
+             "forked child; oracle: every thread's output, result, error number and text and final variables equal the sequential run and the original "
+             "context is unchanged; prefix replay divergence is a hard error and schedules are replayed twice for determinism. The same thread bodies "
+             "run free under ThreadSanitizer (4 threads quick; 2/4/8 thorough): any report in the library is a violation. All precondition-respecting "
+             "orders (length <=5 / <=6) of clone, run in clone, run in original, purge original, free original, free clone, free executable are run "
+             "against a sequential model under ASan.",
+        note="trusted: sufficiency of the instrumented points (checked by the TSan pass, not assumed); weak memory orderings are not modelled; more than 3 threads only in the TSan pass",
+        design="DESIGN.md section 4, C14"),
 }
 
 NOT_YET = {}
@@ -194,6 +224,8 @@ def main():
         "engines": [
             {"name": "E1 space", "path": "vf/core.py", "serves_properties": sorted(k for k, v in CHECKS.items() if v["engine"].startswith("E1")),
              "kind_free_text": "parallel exhaustive enumeration of finite case spaces through harness/vdrv.cpp (fork-isolated, ASan+UBSan, step budget, CPU watchdog)"},
+            {"name": "E3 sched", "path": "harness/sched.cpp, vf/props/c14.py", "serves_properties": ["C14"],
+             "kind_free_text": "cooperative scheduler over BLOC_VERIF_POINTs, depth-first iterative context bounding with fork per execution, prefix replay with divergence check; TSan free-running pass"},
             {"name": "E4 env", "path": "vf/props/c13.py, harness/vdrv.cpp (FragReader)", "serves_properties": ["C13"],
              "kind_free_text": "all environment answers with <=k deviations from the default (split points of the read stream, fixed fragment sizes, long-line alignments)"},
             {"name": "E2 hist", "path": "vf/core.py (explore + collect), vf/props/c08.py, vf/props/c09.py", "serves_properties": sorted(k for k, v in CHECKS.items() if v["engine"].startswith("E2")),
